@@ -9,6 +9,10 @@ CLAIMED = {
          "CBMC proofs over all 2^8..2^64 words for bit reversal and the byte-order accessors (loop-free harness triples), for the square-root fast path and its Newton start value (obligation at the iteration-head hook: x < (x1+1)^2 for every x), and termination of Euclid's loop (loop contract with decreases clause). The Newton step/exit lemma is assumed (solver limit), so sqrt end-to-end and the gcd/lcm divisibility clauses are bounded stand-ins (x < 2^16; a,b < 64 and A*2^40,B*2^40) that are labelled bounded and not counted as discharged.",
          "trusted: cbmc 6.11.0 front end + SAT back end, LP64 little-endian machine model, cbmc's model of __builtin_clz; assumed: integer Newton step lemma; ghost witness index stands for a universal quantifier",
          "contract-based deductive verification with CBMC (harness Hoare triples + goto-instrument loop contracts), bounded unwinding stand-ins where stated", "5/C19"),
+ "C17": ("proof",
+         "For every polynomial: each table entry equals the bitwise remainder of its byte (outer generator loop under a loop contract with a ghost witness index, entry compared with the definition at write time by the A_VERIF_HOOK site, inner 8-step loop unwound completely); for all (poly, value, byte) the table byte step equals 8 bit-by-bit division steps, and the MSB-/LSB-first bit steps are mirror images; for every buffer length <= 2^32 each a_crcNN / a_hash_* result equals the ghost left fold of the reference step over exactly the bytes of the buffer (DFCC function contract + loop contract), the string forms folding up to the first NUL. Whole-message equality with bitwise division, chunking and string/length agreement follow by two-line paper lemmas (fold congruence / concatenation).",
+         "trusted: cbmc 6.11.0, LP64; assumed: paper lemmas composing table+step+fold, ghost witness = universal quantifier, buffers <= 2^32 bytes",
+         "contract-based deductive verification with CBMC: DFCC function contracts, loop contracts, ghost-fold hooks", "5/C17"),
 }
 
 PENDING_REASON = "check not built yet in this session (work in progress; see DESIGN.md section 5 for the planned contracts)"
